@@ -155,6 +155,17 @@ func NewKernel(s *simrt.Sim, cfg KConfig) *Kernel {
 		listeners: map[string]*ListenerObj{}, keyIDs: map[[2]uint64]uint64{}, Stats: map[string]int64{}}
 	K = k
 	s.NormAddr = k.normAddr
+	simrt.ClassifyFault = func(a uintptr) string {
+		for _, m := range k.Mappings {
+			if a >= m.Addr && a < m.Addr+uintptr(m.Len) {
+				if m.Live {
+					return "live_mapping"
+				}
+				return "use_after_unmap"
+			}
+		}
+		return ""
+	}
 	s.OnEnd = append(s.OnEnd, k.cleanup)
 	return k
 }
